@@ -28,14 +28,18 @@ VARIABLES tid, l, ph,
           upd      \* cache entry -> kinds of updates that happened since it entered the cache
 tvars == <<tid, l, ph, prov, upd, hier, extra, h, rel, gens, ret, memo, steps>>
 
-HistClauses == <<"CachedEqualsRecomputed_KnownNoClearOnAddEdge",
-                 "CachedEqualsRecomputed_KnownNoClearOnAddGenerator",
-                 "CachedEqualsRecomputed_Other",
-                 "Drift_Answer", "Drift_ReturnType", "Drift_Generators", "Drift_Final">>
-NPh == Len(HistClauses)
+\* clauses evaluated after an event of the given kind, one phase each
+PhasesOf(kind) ==
+  CASE kind = "final" -> <<"CachedEqualsRecomputed_KnownNoClearOnAddEdge",
+                           "CachedEqualsRecomputed_KnownNoClearOnAddGenerator",
+                           "CachedEqualsRecomputed_Other", "Drift_Final">>
+    [] kind = "query" -> <<"Drift_Answer">>
+    [] kind = "update_ret" -> <<"Drift_ReturnType">>
+    [] kind = "init" -> <<"Drift_Generators">>
+    [] OTHER -> <<"-">>
 
 ev == Traces[tid].ev[l]
-At(name) == l > 0 /\ HistClauses[ph] = name
+At(name) == l > 0 /\ PhasesOf(ev.k)[ph] = name
 ToSetOf(q) == {q[i] : i \in DOMAIN q}
 ObsAns(a) == Ans(a.b, a.n, ToSetOf(a.s))
 St == [h |-> h, reg |-> Reg, prov |-> prov]
@@ -47,7 +51,7 @@ Follow(m2, kinds) ==
   [k \in DOMAIN m2 |-> IF k \in DOMAIN upd THEN upd[k] \cup kinds
                         ELSE UNION {upd[d] : d \in Deps(St, memo, k)}]
 
-TInit == /\ tid \in 1..Len(Traces) /\ l = 0 /\ ph = NPh
+TInit == /\ tid \in 1..Len(Traces) /\ l = 0 /\ ph = 1
          /\ prov = "G" /\ upd = [k \in {} |-> {}]
          /\ hier = AllRoots /\ extra = {} /\ h = H0 /\ rel = NoRel
          /\ gens = {} /\ ret = [g \in {} |-> AnyT] /\ memo = EmptyMemo /\ steps = 0
@@ -85,7 +89,7 @@ Consume(e) ==
     [] e.k = "final" -> UNCHANGED <<prov, upd, extra, h, gens, ret, memo>>
 
 TNext == /\ UNCHANGED <<tid, hier, rel, steps>>
-         /\ IF l > 0 /\ ph < NPh
+         /\ IF l > 0 /\ ph < Len(PhasesOf(ev.k))
             THEN ph' = ph + 1 /\ UNCHANGED <<l, prov, upd, extra, h, gens, ret, memo>>
             ELSE /\ l < Len(Traces[tid].ev)
                  /\ l' = l + 1 /\ ph' = 1
